@@ -2,6 +2,7 @@
 
 use crate::check::*;
 use crate::explore::*;
+use crate::faults::*;
 use crate::ops::*;
 use crate::statecheck::*;
 use crate::types::*;
@@ -54,6 +55,7 @@ pub struct Phase {
     pub roots: Vec<Root>,
     pub alpha_len: usize,
     pub nkeys: u16,
+    pub fault_props: Props,
 }
 
 pub fn show_history(u: &Universe, cfg: &Config, hist: &[Op], op: Option<&Op>) -> Vec<String> {
@@ -67,7 +69,7 @@ pub fn show_history(u: &Universe, cfg: &Config, hist: &[Op], op: Option<&Op>) ->
     v
 }
 
-fn write_replay(dir: &str, prop: &str, u: &Universe, nkeys: u16, big: bool, root: &Root, vr: &VRec, mode: &str) -> String {
+fn write_replay(dir: &str, prop: &str, u: &Universe, nkeys: u16, big: bool, root: &Root, vr: &VRec, fault_props: Props) -> String {
     use std::hash::{Hash, Hasher};
     let mut h = std::collections::hash_map::DefaultHasher::new();
     format!("{:?}{:?}{:?}{}", vr.hist, vr.op, root.cfg, vr.rule).hash(&mut h);
@@ -77,7 +79,9 @@ fn write_replay(dir: &str, prop: &str, u: &Universe, nkeys: u16, big: bool, root
         "property": prop,
         "rule": vr.rule,
         "detail": vr.detail,
-        "mode": mode,
+        "mode": vr.mode,
+        "fault_props": fault_props,
+        "prefix": root.prefix.iter().map(op_to_json).collect::<Vec<_>>(),
         "universe": {"nkeys": nkeys, "big_limits": big},
         "config": config_to_json(&root.cfg),
         "history": vr.hist.iter().map(op_to_json).collect::<Vec<_>>(),
@@ -142,39 +146,97 @@ pub fn cmd_explore(opt: &HashMap<String, String>) -> i32 {
     let caps = opt.get("caps").map(|s| parse_caps(s)).unwrap_or_else(|| vec![None, Some(3), Some(8)]);
     let max_depth: usize = opt.get("max-depth").and_then(|s| s.parse().ok()).unwrap_or(64);
     let wall_cap: f64 = opt.get("wall-cap").and_then(|s| s.parse().ok()).unwrap_or(if thorough { 3000.0 } else { 240.0 });
+    let d_after: usize = opt.get("d-after").and_then(|s| s.parse().ok()).unwrap_or(if thorough { 2 } else { 1 });
     let known = load_known(opt.get("known"));
     let replay_dir = opt.get("replay-dir").cloned().unwrap_or_else(|| "/verif/replays".into());
     let big = thorough;
 
     let u = Universe::new(nkeys, big);
     let gb = growth_bound(&u, &caps);
-    let ctx = Ctx { u: &u, sel, growth_bound: Some(gb) };
+    let ctx = Ctx { u: &u, sel, growth_bound: Some(gb), fault_props: 0 };
 
     // which state-level checks this property needs
     let want = |n: u32| sel & p(n) != 0;
     let owning = want(12) || want(6);
     let clone = want(14) || want(19) || want(6) || want(7) || want(20);
     let clone_product = if want(14) { 1 } else { 0 };
-    let state_opts = StateOpts { exhaustive_pat_len: if thorough { 10 } else { 8 }, owning, clone, clone_product };
+    let exhaustive_pat_len = if thorough { 10 } else { 8 };
+    let state_opts = StateOpts { exhaustive_pat_len, owning, clone, clone_product };
+    let fault_only = prop_s == "C16" || prop_s == "C17";
 
     let mut phases: Vec<Phase> = vec![];
+    let mut novel: Vec<(usize, Vec<Op>, Vec<u8>)> = vec![];
+    let roots = closure_roots(&hashers, &caps, u.limits[u.limits.len() - 2]);
     {
-        let roots = closure_roots(&hashers, &caps, u.limits[u.limits.len() - 2]);
         let alpha = alphabet(&u);
         let alpha_len = alpha.len();
         let mut ex = Explorer::new(&ctx, roots.clone(), alpha);
+        let falpha = fault_alphabet(&u);
+        let w16 = want(16);
+        let w17 = want(17);
+        let extra: Option<std::sync::Arc<dyn Fn(&Ctx, &Config, &[Op], &mut Stats) -> ExtraOut + Send + Sync>> = if w16 || w17 {
+            Some(std::sync::Arc::new(move |ctx: &Ctx, cfg: &Config, hist: &[Op], st: &mut Stats| {
+                let mut out = ExtraOut { viol: vec![], novel: vec![] };
+                if w16 {
+                    let o = fault_scan(ctx, cfg, hist, &falpha, st);
+                    out.viol.extend(o.viol);
+                    out.novel.extend(o.novel);
+                }
+                if w17 {
+                    let o = forget_scan(ctx, cfg, hist, exhaustive_pat_len, st);
+                    out.viol.extend(o.viol);
+                    out.novel.extend(o.novel);
+                }
+                out
+            }))
+        } else {
+            None
+        };
         let eo = ExploreOpts {
             threads,
             max_depth,
             max_states: 30_000_000,
             wall_cap_s: wall_cap,
-            state_opts: Some(state_opts),
+            state_opts: if fault_only { None } else { Some(state_opts) },
             transitions: true,
             max_violations: 200,
-            extra: None,
+            extra,
+        };
+        let mut result = ex.run(&eo);
+        novel = std::mem::take(&mut result.novel);
+        phases.push(Phase { name: format!("closure U{}", nkeys), result, roots: roots.clone(), alpha_len, nkeys, fault_props: 0 });
+    }
+    // continuation after a fault: every state reached by a fault that is not a
+    // state of the closure is explored for d_after further operations
+    if (want(16) || want(17)) && !novel.is_empty() && phases[0].result.machinery.is_none() {
+        let fp = sel & (p(16) | p(17));
+        let ctx2 = Ctx { u: &u, sel: fp, growth_bound: None, fault_props: fp };
+        let roots2: Vec<Root> = novel
+            .iter()
+            .map(|(r, h, _)| Root { cfg: roots[*r].cfg, prefix: h.clone(), label: format!("post-fault state after {} steps", h.len()) })
+            .collect();
+        let alpha = alphabet(&u);
+        let alpha_len = alpha.len();
+        let mut ex = Explorer::new(&ctx2, roots2.clone(), alpha);
+        let falpha = fault_alphabet(&u);
+        let second = thorough && want(16);
+        let extra: Option<std::sync::Arc<dyn Fn(&Ctx, &Config, &[Op], &mut Stats) -> ExtraOut + Send + Sync>> = if second {
+            Some(std::sync::Arc::new(move |ctx: &Ctx, cfg: &Config, hist: &[Op], st: &mut Stats| fault_scan(ctx, cfg, hist, &falpha, st)))
+        } else {
+            None
+        };
+        let eo = ExploreOpts {
+            threads,
+            max_depth: d_after,
+            max_states: 30_000_000,
+            wall_cap_s: wall_cap,
+            state_opts: None,
+            transitions: true,
+            max_violations: 200,
+            extra,
         };
         let result = ex.run(&eo);
-        phases.push(Phase { name: format!("closure U{}", nkeys), result, roots, alpha_len, nkeys });
+        phases.push(Phase { name: format!("continuation after fault (depth {})", d_after), result, roots: roots2, alpha_len, nkeys, fault_props: fp });
     }
 
     finish(&prop_s, pnum, &tier, seed, &u, big, phases, &known, &replay_dir, opt.get("out"), t0)
@@ -260,7 +322,7 @@ pub fn finish(
                 let cnt = printed.entry((pname.clone(), vr.rule)).or_insert(0);
                 *cnt += 1;
                 if *cnt <= 2 {
-                    let path = write_replay(replay_dir, &pname, u, ph.nkeys, big, &ph.roots[vr.root], vr, "closure");
+                    let path = write_replay(replay_dir, &pname, u, ph.nkeys, big, &ph.roots[vr.root], vr, ph.fault_props);
                     lines.push(format!("VIOLATION property={} replay={}", pname, path));
                     lines.push(format!("  rule {}: {}", vr.rule, vr.detail));
                     for l in show_history(u, &ph.roots[vr.root].cfg, &vr.hist, vr.op.as_ref()) {
@@ -284,6 +346,7 @@ pub fn finish(
         println!("{l}");
     }
     let distinct_classes = classes.len();
+    let distinct_nontrivial = total_states;
     println!(
         "{}: tier={} states={} transitions={} executions={} replays_validated={} outcome_classes={} exhaustive={} violations={} wall={:.1}s",
         prop_s, tier, total_states, total_trans, total_exec, total_valid, distinct_classes, exhaustive, n_viol, wall
@@ -293,8 +356,11 @@ pub fn finish(
             "property_id": prop_s,
             "tier": tier,
             "seed": seed,
-            "level": "model_checking",
+            "level": if prop_s == "C16" || prop_s == "C17" { "fault_enumeration" } else { "model_checking" },
             "coverage": {
+                "evaluations": total_exec.max(1),
+                "distinct_nontrivial": distinct_nontrivial,
+                "rule": "cases = executions of one operation (or one fault point of one operation) on the real cache rebuilt in one reachable state; distinct_nontrivial = number of distinct canonical states of the real cache that were reached and expanded (each differs from every other in its concrete table/list representation)",
                 "states": total_states,
                 "transitions": total_trans.max(1),
                 "traces_validated_against_impl": total_valid,
@@ -350,39 +416,60 @@ pub fn cmd_replay(opt: &HashMap<String, String>) -> i32 {
         eprintln!("bad config");
         return 2;
     };
-    let hist: Vec<Op> = j["history"].as_array().map(|a| a.iter().filter_map(op_from_json).collect()).unwrap_or_default();
+    let mut hist: Vec<Op> = j["history"].as_array().map(|a| a.iter().filter_map(op_from_json).collect()).unwrap_or_default();
     let op = op_from_json(&j["op"]);
-    let ctx = Ctx { u: &u, sel, growth_bound: None };
+    let mode = j["mode"].as_str().unwrap_or("transition").to_string();
+    let fault_props = j["fault_props"].as_u64().unwrap_or(0) as Props;
+    let ctx = Ctx { u: &u, sel, growth_bound: None, fault_props };
     let mut st = Stats::default();
-    let mut viols: Vec<Violation> = vec![];
-    match op {
-        Some(op) => {
+    let mut viols: Vec<(String, String)> = vec![];
+    for l in show_history(&u, &cfg, &hist, op.as_ref()) {
+        println!("  {l}");
+    }
+    match (mode.as_str(), op) {
+        ("fault", op) => {
+            // the fault scan re-enumerates every fault point of the operation
+            // (C16) or every leak point of every iterator (C17) in that state
+            while matches!(hist.last(), Some(Op::ArmFuel { .. }) | Some(Op::DrainForget { .. })) {
+                hist.pop();
+            }
+            let eo = if let Some(op) = op {
+                fault_scan(&ctx, &cfg, &hist, &[op], &mut st)
+            } else {
+                forget_scan(&ctx, &cfg, &hist, 10, &mut st)
+            };
+            for x in eo.viol {
+                viols.push((x.rule.to_string(), x.detail));
+            }
+        }
+        (_, Some(op)) => {
             let t = run_transition(&ctx, &cfg, &hist, op, None, &mut st);
             if let Some(m) = t.machinery {
                 eprintln!("MACHINERY ERROR: {m}");
                 return 2;
             }
-            viols.extend(t.viol);
+            for x in t.viol {
+                viols.push((x.rule.to_string(), x.detail));
+            }
         }
-        None => {
+        (_, None) => {
             let so = StateOpts { exhaustive_pat_len: 10, owning: true, clone: true, clone_product: 1 };
             let r = check_state(&ctx, &cfg, &hist, None, &so, &mut st);
             if let Some(m) = r.machinery {
                 eprintln!("MACHINERY ERROR: {m}");
                 return 2;
             }
-            viols.extend(r.viol);
+            for x in r.viol {
+                viols.push((x.rule.to_string(), x.detail));
+            }
         }
-    }
-    for l in show_history(&u, &cfg, &hist, op.as_ref()) {
-        println!("  {l}");
     }
     if viols.is_empty() {
         println!("replay: no violation of {prop} reproduced");
         0
     } else {
-        for x in &viols {
-            println!("  rule {}: {}", x.rule, x.detail);
+        for (r, d) in viols.iter().take(10) {
+            println!("  rule {}: {}", r, d);
         }
         println!("VIOLATION property={} replay={}", prop, file);
         1
